@@ -204,6 +204,74 @@ def landscapes_and_tables(spec_cases: list[dict]) -> dict:
             except Exception as exc:
                 out['bad'].append(f'roundtrip_raised:{name}:{type(exc).__name__}')
                 out.setdefault('exc', str(exc)[:300])
+    # mode jit_then_eager in a process that has not applied the operator before (this worker is fresh): the jitted
+    # application comes FIRST, then eager, a second jit, the unflattened copy and as_matrix - module-level caches filled
+    # during the first trace must not leak tracers into later applications
+    def fresh_subjects():
+        s5 = jax.ShapeDtypeStruct((5,), jnp.float32)
+        band = jnp.array([3.0, 1.0, 0.5], dtype=jnp.float32)
+        for m in toeplitz.SymmetricBandToeplitzOperator.METHODS:
+            yield f'toeplitz_{m}', (lambda m=m: toeplitz.SymmetricBandToeplitzOperator(band, s5, method=m))
+        yield 'diagonal', (lambda: diagonal.DiagonalOperator(jnp.array([1.0, 2.0, 3.0, 4.0, 5.0], dtype=jnp.float32), in_structure=s5))
+        yield 'index', (lambda: indices.IndexOperator(jnp.array([4, 0, 0, -2]), in_structure=s5))
+        yield 'dense', (lambda: dense.DenseBlockDiagonalOperator(jnp.arange(10.0, dtype=jnp.float32).reshape(2, 5), s5, 'ij,j->i'))
+
+    xin = jnp.array([1.0, -2.0, 3.0, 0.5, 4.0], dtype=jnp.float32)
+    for name, make in fresh_subjects():
+        try:
+            op = make()
+            first = np.asarray(jax.jit(lambda v: op.mv(v))(xin))
+            results = {
+                'eager': np.asarray(op.mv(xin)),
+                'second_jit': np.asarray(jax.jit(lambda v: op(v))(xin)),
+                'unflattened': np.asarray(jax.tree.unflatten(jax.tree.structure(op), jax.tree.leaves(op)).mv(xin)),
+                'as_matrix': np.asarray(op.as_matrix()) @ np.asarray(xin),
+                'transpose_of_same_instance': None,
+            }
+            del results['transpose_of_same_instance']
+            for k, v in results.items():
+                if v.shape != first.shape or not np.allclose(v, first, rtol=2e-5, atol=2e-5):
+                    out['bad'].append(f'jit_first_then_{k}:{name}')
+        except Exception as exc:
+            out['bad'].append(f'jit_first_raised:{name}:{type(exc).__name__}')
+            out.setdefault('exc', str(exc)[:300])
+    # one filtering jit shared by operators that differ only in static (non-array) content: lazy inverses that captured
+    # different solver options / solvers.  Each must give, as an argument of the SAME jitted function, what it gives eagerly.
+    try:
+        import equinox
+        import lineax as lx
+        from furax import Config
+
+        s4 = jax.ShapeDtypeStruct((4,), jnp.float32)
+        spd = dense.DenseBlockDiagonalOperator(
+            jnp.array([[9.0, 1.0, 0.0, 2.0], [1.0, 5.0, 1.0, 0.0], [0.0, 1.0, 3.0, 1.0], [2.0, 0.0, 1.0, 1.5]], dtype=jnp.float32),
+            s4, 'ij,j->i')
+        pre1 = diagonal.DiagonalOperator(jnp.array([1.0, 1.0, 1.0, 1.0], dtype=jnp.float32), in_structure=s4)
+        pre2 = diagonal.DiagonalOperator(jnp.array([0.1, 0.2, 0.3, 0.7], dtype=jnp.float32), in_structure=s4)
+        short = lx.CG(rtol=1e-12, atol=1e-12, max_steps=2)          # stops early: the options visibly change the result
+        invs = {}
+        with Config(solver=short, solver_options={'preconditioner': pre1}):
+            invs['pre1'] = spd.I
+        with Config(solver=short, solver_options={'preconditioner': pre2}):
+            invs['pre2'] = spd.I
+        with Config(solver=lx.CG(rtol=1e-12, atol=1e-12, max_steps=3)):
+            invs['steps3'] = spd.I
+        invs['default'] = spd.I
+        shared = equinox.filter_jit(lambda op, v: op.mv(v))
+        yv = jnp.array([1.0, -2.0, 0.5, 3.0], dtype=jnp.float32)
+        import contextlib
+        import io
+        with contextlib.redirect_stdout(io.StringIO()):
+            eager = {k: np.asarray(v.mv(yv)) for k, v in invs.items()}
+            for k, v in invs.items():
+                got = np.asarray(shared(v, yv))
+                if got.shape != eager[k].shape or not np.allclose(got, eager[k], rtol=1e-4, atol=1e-5):
+                    out['bad'].append(f'shared_filter_jit:inverse_{k}')
+        if np.allclose(eager['pre1'], eager['pre2'], rtol=1e-3):
+            out['drift'].append('shared_filter_jit:preconditioners_indistinguishable')
+    except Exception as exc:
+        out['bad'].append(f'shared_filter_jit_raised:{type(exc).__name__}')
+        out.setdefault('exc', str(exc)[:300])
     # class tables against the real classes
     mods = [axes, blocks, core, dense, diagonal, indices, linear, hwp, polarizers, qu_rotations, toeplitz]
     real = {}
